@@ -62,7 +62,7 @@ class Roles:
         out = []
         methods = set(self.actor_methods(actor))
         roots = {self.prog.facts.body(m).root or m for m in methods} | methods
-        for bid in self.actor_methods(actor):
+        for bid in self.actor_methods(actor) + [actor.dispatch]:
             effs = [e for e in self.prog.effects(bid) if e.touches(cell) and e.kind in kinds and not e.spawned
                     and not any(b in roots and b != bid for b, _ in e.chain)]
             if effs:
@@ -83,7 +83,7 @@ class Roles:
             b = self.prog.facts.body(bid)
             if b.kind != "AssocFn":
                 continue
-            if any(e.touches(self.t_messages) and e.kind in L.REMOVE_KINDS and not e.chain for e in self.prog.effects(bid)):
+            if any(e.touches(self.t_messages) and e.kind in L.REMOVE_KINDS for e in self.prog.own_effects(bid)):
                 out.append(bid)
         return out
 
